@@ -136,8 +136,12 @@ package responseassembler
 //@   requires builder != nil && builder.Builder != nil && builder.Builder.completedResponses != nil && builder.Builder.outgoingResponses != nil
 //@   modifies alloc, allmaps(builder.Builder.completedResponses), allmaps(builder.Builder.outgoingResponses)
 //@   ensures builder.Builder.blkSize == old(builder.Builder.blkSize)
-//@   -- C03: the status becomes the request's status in the message under construction; its metadata is untouched
-//@   ensures fo.requestID in builder.Builder.completedResponses && builder.Builder.completedResponses[fo.requestID] == fo.status && fo.requestID in builder.Builder.outgoingResponses
+//@   -- C03: the status becomes the request's status in the message under construction (C05: unless it is a non-terminal
+//@   -- status and a terminal one is already waiting there); its metadata is untouched
+//@   ensures fo.requestID in builder.Builder.completedResponses && fo.requestID in builder.Builder.outgoingResponses
+//@   ensures builder.Builder.completedResponses[fo.requestID] == ite(old(fo.requestID in builder.Builder.completedResponses)
+//@              && old(isSuccess(builder.Builder.completedResponses[fo.requestID]) || isFailure(builder.Builder.completedResponses[fo.requestID]))
+//@              && !(isSuccess(fo.status) || isFailure(fo.status)), old(builder.Builder.completedResponses[fo.requestID]), fo.status)
 //@   ensures metaLen(builder.Builder, fo.requestID) == old(metaLen(builder.Builder, fo.requestID))
 //@ -- extension data is not counted as block bytes, so it must not be reserved either
 //@ func extensionOperation.size
